@@ -46,14 +46,14 @@ func HasClass(r *Result, class string) bool {
 // A scenario with a Before list depends on state the simulator cannot reset,
 // so every candidate of it is executed in a pristine child process (fresh);
 // the earlier runs are minimised first.
-func Shrink(s *scn.Scenario, class string, opt Options, maxExecs int, maxTime time.Duration, fresh func(*scn.Scenario) *Result) (*scn.Scenario, int) {
+func Shrink(s *scn.Scenario, class string, opt Options, maxExecs int, maxTime time.Duration, fresh func(*scn.Scenario) *Result, forceFresh bool) (*scn.Scenario, int) {
 	opt.Trace = false
 	execs := 0
 	start := time.Now()
 	cur := s.Clone()
 	// once a violation is known to depend on state that survives between runs,
 	// this (polluted) process can no longer judge any candidate
-	useFresh := len(s.Before) > 0 && fresh != nil
+	useFresh := (len(s.Before) > 0 || forceFresh) && fresh != nil
 	fails := func(c *scn.Scenario) (*Result, bool) {
 		if execs >= maxExecs || time.Since(start) > maxTime {
 			return nil, false
@@ -64,6 +64,11 @@ func Shrink(s *scn.Scenario, class string, opt Options, maxExecs int, maxTime ti
 			r = fresh(c)
 		} else {
 			r = Execute(c, opt)
+			if r.Poisoned && fresh != nil {
+				// this candidate left task goroutines behind: from now on judge in
+				// pristine child processes only
+				useFresh = true
+			}
 		}
 		return r, r != nil && HasClass(r, class)
 	}
